@@ -74,6 +74,18 @@ def run_update_params(case):
             obj._communicate_params = mode == "params"
             gsel = [b for b in range(NB) if present[b]]
             lsel = [b for b in gsel if owners[b] == me]
+            # the FULL representation invariant the constructor + merge_and_block_gradients establish (every list the class keeps, mutually
+            # consistent), not only the lists today's update_params reads: code that consults other parts of the invariant stays decidable
+            mine = [b for b in range(NB) if owners[b] == me]
+            obj._global_blocked_params = tuple(params)
+            obj._global_dist_blocked_buffers = tuple(bufs)
+            obj._distributor_selector = tuple(owners[b] == me for b in range(NB))
+            obj._global_grad_selector = tuple(present)
+            obj._previous_global_grad_selector = tuple(present)
+            obj._local_grad_selector = tuple(present[b] for b in mine)
+            obj._local_blocked_params = tuple(params[b] for b in mine)
+            obj._local_dist_blocked_buffers = tuple(bufs[b] for b in mine)
+            obj._global_num_blocks_per_param = (1,) * NB
             obj._global_masked_blocked_params = tuple(params[b] for b in gsel)
             obj._global_masked_dist_blocked_buffers = tuple(bufs[b] for b in gsel)
             obj._local_masked_blocked_params = tuple(params[b] for b in lsel)
